@@ -7,8 +7,7 @@ META = {
             "has an exponential histogram), the entry stream C36 demands: per group the classic lines (keep-classic or not "
             "convertible) followed by one NHCB with the finite bounds, de-cumulated counts, count, sum, the group's timestamp and its "
             "exemplars. A second layer transcribes NHCBParser.Next / handleClassicHistogramSeries / processNHCB and "
-            "convertnhcb.TempHistogram as a state machine over the line stream; TLC checks on every payload that both agree except "
-            "for the recorded deviations KF-C36-1 and KF-C36-2. Each payload is rendered as Prometheus text, OpenMetrics and "
+            "convertnhcb.TempHistogram as a state machine over the line stream; TLC checks on every payload that both agree. Each payload is rendered as Prometheus text, OpenMetrics and "
             "delimited protobuf, parsed by textparse.New with ConvertClassicHistogramsToNHCB (keep-classic on/off) and the entry "
             "stream (labels, values, timestamps, histogram bounds/buckets/count/sum/exemplars) is compared with the reference.",
     "note": "Bounds: <=2 groups exhaustively over 2 shapes (quick), all 6 shapes x 3 line orders x exemplars for single groups, <=3 "
@@ -53,7 +52,7 @@ def run(ctx):
         # binding self-test (notes/C36.md): change one predicted bucket count of one payload without deviation
         for b in behs:
             hs = [e for e in b["want"] if e["k"] == "H" and e["ls"] != "x"]
-            if hs and not b["kf1"] and not b["kf2"] and b["text"]:
+            if hs and b["text"]:
                 hs[0]["cnts"][0] += 1
                 ctx.log("VERIF_CORRUPT: corrupted one payload")
                 break
